@@ -195,7 +195,35 @@ def install(ctx):
 
 
 # ---------------------------------------------------------------- generators
+def gen_long_chord(rng):
+    """Chords 1e6..1e12 times longer than the tolerance, with vertices that overshoot the chord's
+    end (or undershoot its start) by a few tolerances - distances are small differences of huge
+    coordinates."""
+    tol = rng.choice((0.1, 0.25, 1.0, 0.01))
+    length = 10 ** rng.uniform(6, 11)
+    ang = rng.choice((0.0, math.pi / 2, rng.uniform(0, 2 * math.pi)))
+    ux, uy = math.cos(ang), math.sin(ang)
+    ox, oy = rng.uniform(-1, 1) * length * 0.05, rng.uniform(-1, 1) * length * 0.05
+    pts = [[ox, oy]]
+    for _ in range(rng.randint(1, 3)):
+        k = rng.choice((0.3, 0.8, 1.5, 3.0, 5.0, 9.0))            # overshoot in tolerances
+        side = rng.choice((1.0, -1.0))
+        lat = rng.uniform(-0.3, 0.3) * tol
+        if side > 0:
+            a = length + k * tol
+        else:
+            a = -k * tol
+        pts.append([ox + ux * a - uy * lat, oy + uy * a + ux * lat])
+    pts.append([ox + ux * length, oy + uy * length])
+    if rng.random() < 0.5:
+        pts.append([ox + ux * (length * 1.5), oy + uy * (length * 1.5) + tol * 3])
+    return ["long chord, overshoot by a few tolerances (chord/tolerance 1e6..1e12)",
+            "tolerance comparable to the deviations"], pts, tol
+
+
 def gen_path(rng):
+    if rng.random() < 0.05:
+        return gen_long_chord(rng)
     c = rng.random()
     n = rng.choice((0, 1, 2, 3, 3, 4, 5, 6, 8, rng.randint(3, 30), rng.randint(10, 120), rng.randint(50, 400)))
     pts = []
@@ -271,6 +299,11 @@ def gen_path(rng):
     return [cls, tcls], pts, tol
 
 
+def plot_utils_mod():
+    from plotink import plot_utils
+    return plot_utils
+
+
 def one_case(ctx, pts, tol):
     from plotink import plot_utils
     try:
@@ -295,8 +328,38 @@ def run(ctx):
         ctx.case(classes, (tuple(map(tuple, pts)), tol), nontrivial=ln >= 3 and tol > 0)
         if ln <= 8:
             ctx.sample({"vertices": [list(p) for p in pts], "tolerance": tol}, tag=classes[0], per_tag=1)
+        original = [list(p) if isinstance(p, list) else tuple(p) for p in pts]
+        # the predicate clause is driven directly (not only through supersample's internal calls, which
+        # a refactor may legitimately route elsewhere): windows of the path, incl. overshooting ones
+        if ln >= 3 and tol > 0:
+            for _w in range(8):
+                i = rng.randrange(0, ln - 2)
+                j = min(ln, i + rng.choice((3, 3, 4, 5, 8, rng.randint(3, 12))))
+                window = [tuple(p) for p in pts[i:j]]
+                try:
+                    plot_utils_mod().points_in_tolerance(window, tol * rng.choice((1.0, 1.0, 0.5, 2.0, 10.0)))
+                except Exception as exc:
+                    ctx.violation("exception", {"fn": "points_in_tolerance", "points": [list(q) for q in window],
+                                                "tolerance": tol, "exception": repr(exc)})
         one_case(ctx, pts, tol)
-    for cls in ("straight", "noisy straight", "random walk", "integer lattice", "repeated points",
+        # history: the already reduced list again (another tolerance), then the original vertices with a
+        # related tolerance - every call must satisfy the statement on its own input
+        if ln >= 3 and rng.random() < 0.2:
+            for k in range(rng.randint(1, 3)):
+                choice = rng.randrange(3)
+                if choice == 0:
+                    pts2, tol2 = pts, (abs(tol) or 0.1) * rng.choice((1.0, 2.0, 10.0))
+                elif choice == 1:
+                    pts2, tol2 = [list(p) if isinstance(p, list) else tuple(p) for p in original], \
+                        tol * rng.choice((0.5, 1.0, 1.5, 0.0, -1.0))
+                else:
+                    pts2 = [list(p) if isinstance(p, list) else tuple(p) for p in reversed(original)]
+                    tol2 = tol
+                ctx.case(["history: related call (same vertices / same tolerance as the previous one)",
+                          "history kind %d" % choice], (tuple(map(tuple, pts2)), tol2, "after", k))
+                one_case(ctx, pts2, tol2)
+    for cls in ("history: related call (same vertices / same tolerance as the previous one)",
+                "long chord, overshoot by a few tolerances (chord/tolerance 1e6..1e12)", "straight", "noisy straight", "random walk", "integer lattice", "repeated points",
                 "closed path (first == last)", "spikes beyond the chord ends",
                 "smooth curve (densely sampled)", "tolerance 0", "tolerance negative", "tolerance tiny",
                 "tolerance comparable to the deviations", "tolerance larger than the path",
@@ -304,8 +367,8 @@ def run(ctx):
                 "outcome:some vertices deleted", "outcome:nothing deleted"):
         ctx.need(cls, 50)
     ctx.need("monitor:supersample evaluated", 3_000)
-    ctx.need("monitor:points_in_tolerance evaluated", 20_000)
-    ctx.need("monitor:agreement with max_dist_from_n_points evaluated", 20_000)
+    ctx.need("monitor:points_in_tolerance evaluated", 10_000)
+    ctx.need("monitor:agreement with max_dist_from_n_points evaluated", 10_000)
     ctx.need("monitor:deleted vertices checked", 10_000)
     contracts.uninstall_all()
 
